@@ -595,6 +595,47 @@ func ruleStaleness(r *Run, rule string) {
 			}
 		}
 	}
+	// both comparisons are evaluated for every object (independent tests, not else-if)
+	isTimeTest := func(e Event, f string) bool {
+		if e.Kind != EvBranch || e.Cond == nil {
+			return false
+		}
+		c, ok := ast.Unparen(e.Cond).(*ast.CallExpr)
+		if !ok {
+			return false
+		}
+		sel, ok := c.Fun.(*ast.SelectorExpr)
+		if !ok {
+			return false
+		}
+		_, m := FieldPath(fl.Info, sel.X, "workflow.State", f)
+		return m
+	}
+	for i := range paths {
+		p := &paths[i]
+		for j, e := range p.Ev {
+			if e.Kind != EvRange || !e.Taken {
+				continue
+			}
+			sawS, sawE := false, false
+			end := false
+			for x := j + 1; x < len(p.Ev) && !end; x++ {
+				if p.Ev[x].Kind == EvRange {
+					end = true
+					break
+				}
+				if isTimeTest(p.Ev[x], "Start") {
+					sawS = true
+				}
+				if isTimeTest(p.Ev[x], "End") {
+					sawE = true
+				}
+			}
+			if end && (!sawS || !sawE) && bad == "" {
+				bad = "for some object only one of State.Start/State.End is compared with the running maximum (Start tested=" + boolStr(sawS) + ", End tested=" + boolStr(sawE) + "): the two tests must be independent, otherwise an End newer than every Start is ignored and a live plan is closed as stale"
+			}
+		}
+	}
 	if !walks && bad == "" {
 		bad = "lastUpdate does not range over walk.Plan(p): activity of sub-objects would be ignored and a live plan closed as stale"
 	}
